@@ -193,6 +193,17 @@ def least_squares(engine, run, a, k):
         xs.append(v)
     x = SArr(xs)
     engine.invoke(run, fun, [SArr(list(xs))], {})         # a call at the final (arbitrary feasible) point
+    # ... which need not be the LAST call: the optimiser may evaluate the residual (finite-difference probes) at any other feasible point
+    # afterwards.  Whatever the callback leaves behind in shared state must therefore not be taken for the result.
+    probe = []
+    for j, (l_, u_) in enumerate(zip(lb.elems, ub.elems)):
+        v = run.fresh_real(f"probe_{names[j] if j < len(names) else j}")
+        if not isinstance(l_, SInf):
+            run.assume(v >= to_real(l_))
+        if not isinstance(u_, SInf):
+            run.assume(v <= to_real(u_))
+        probe.append(v)
+    engine.invoke(run, fun, [SArr(probe)], {})
     run.ghost["ls"]["x"] = x
     run.trust("ASSUMED contract of scipy.optimize.least_squares (feasible start required; feasible result; cost does not increase)")
     return LSResult(x)
@@ -211,6 +222,11 @@ def _grid_getattr(self, run, attr):
             p = a[0]
             if not isinstance(p, SGridPoint):
                 raise Undecided("normalize_point of a non-grid point")
+            if k or len(a) > 1:
+                # e.g. reflect=True: another map (points outside non-periodic axes are mirrored) - not the wrap by whole periods
+                run2.oblige(f"normalize_point is called without options (got {sorted(k)}): only periodic axes may change, by whole periods", False,
+                            kind="ensures", assume_after=False)
+                raise run2.PathEnd()
             cart = p.cart
             out = []
             per = [z3.Bool(f"{self.name}_periodic{j}") for j in range(self.dim)]
@@ -377,6 +393,8 @@ class RefineDroplet(Contract):
         for t in range(2 if tier == "quick" else 10):
             yield dict(seed=seed * 10 + t, vmin=[0.0, 10.0, -2.0][t % 3], vmax=[1.0, 11.0, 6.0][t % 3], noise=[0.0, 0.02][t % 2],
                        from_self=(t % 2 == 0))
+        if case["grid"] == "cartesian":
+            yield dict(seed=seed * 10, vmin=0.0, vmax=1.0, noise=0.0, from_self=True, outside=True)
 
     def concrete_run(self, case, inputs):
         return refine_check(case, inputs)
@@ -408,11 +426,15 @@ def refine_check(case, inputs):
         pos = lo + size * rng.uniform(0.35, 0.65, dim)
         if inputs.get("seed", 0) % 3 == 1:
             pos = pos + size * np.array(grid.periodic, dtype=float)        # a full period outside the box on periodic axes
+        if inputs.get("outside"):
+            nonper = [ax for ax in range(dim) if not grid.periodic[ax]]
+            if nonper:
+                pos[nonper[0]] = lo[nonper[0]] - 1.5                        # centre outside the box along a NON-periodic axis
     elif kind == "spherical":
         pos = np.zeros(dim)
     else:
         pos = np.array([0.0, 0.0, 0.5 * sum(grid.axes_bounds[1]) + rng.uniform(-1, 1)])
-    R = 3.0 + rng.random()
+    R = 3.0 + rng.random() + (2.0 if inputs.get("outside") else 0.0)
     true = droplets.DiffuseDroplet(pos, R, 1.0)
     vmin, vmax = float(inputs.get("vmin", 0.0)), float(inputs.get("vmax", 1.0))
     if vmax < vmin:
@@ -446,7 +468,10 @@ def refine_check(case, inputs):
         res = real_ls(fun, x0, *args, **kw)
         seen.update(x0=np.array(x0, dtype=float), bounds=kw.get("bounds"), x=res.x.copy(), cost0=0.5 * float(np.sum(np.asarray(fun(np.array(x0))) ** 2)),
                     cost=float(res.cost))
-        fun(res.x)
+        # the assumed optimiser contract allows residual evaluations at ANY feasible point, in any order; the last one made by this wrapper is a
+        # probe next to the optimum (as finite-difference steps are), so code that takes the callback's leftovers for the result is exposed
+        lb_, ub_ = kw.get("bounds", (-np.inf, np.inf))
+        fun(np.clip(res.x + 1e-3 * (1 + np.abs(res.x)), lb_, ub_))
         return res
     kw = dict(adjust_values=case["adjust_values"])
     if case["levels"] == "fixed":
